@@ -77,6 +77,7 @@ fn main() {
             "importers" => importers::run(sc),
             "wire" => wire::run(sc),
             "entry_points" => wire::run_entry_points(sc),
+            "text_whitespace" => wire::run_text_whitespace(sc),
             "statement" => statement::run(sc),
             "statement_doc" => statement::run_doc(sc),
             "record" => record::run(sc),
